@@ -409,6 +409,21 @@ theorem relin_result_phase_modulo_norm {N : Nat} (big128 : Bool) (rb rs : Nat) (
           (C02L.errTo (min (acc.length - 1) s.length) s E) :=
   mapM_kernel_phase_modulo_norm _ rb g.base2k acc res hm hres hacc A B E hE hK s
 
+example (s : List Poly) :
+    polyScale 16 (C02L.valP 4 1 (Core.Ops.phase s (Ks.mkCt 4 1 [[[6], [0]], [[2], [0]]])))
+      = polyAdd (polyScale 1 (C02L.valP exTsk.base2k 1 (Core.Ops.phase s (Ks.mkCt exTsk.base2k 1 [[[6], [0], [0]], [[2], [0], [0]]]))))
+          (C02L.errTo (min (2 - 1) s.length) s (fun _ => [0])) :=
+  relin_result_phase_modulo_norm (N := 1) false 4 2 exTsk [[[6], [0], [0]], [[2], [0], [0]]] [[[6], [0]], [[2], [0]]]
+    (by decide) (by decide) (by decide) 16 1 (fun _ => [0]) (fun _ => rfl)
+    (by
+      intro i hi C hC
+      have hi' : i = 0 ∨ i = 1 := by simp at hi; omega
+      rcases hi' with rfl | rfl
+      · have e : bigNormalizeOff false 1 4 2 0 [[6], [0], [0]] exTsk.base2k = some [[6], [0]] := by decide
+        have hC' := e.symm.trans hC; injection hC' with hC'; subst hC'; decide
+      · have e : bigNormalizeOff false 1 4 2 0 [[2], [0], [0]] exTsk.base2k = some [[2], [0]] := by decide
+        have hC' := e.symm.trans hC; injection hC' with hC'; subst hC'; decide) s
+
 /-- **`mul_const_result_phase_modulo_norm`** — `glwe_mul_const` / `glwe_mul_const_assign`: the result is the column-wise normalisation
 (bit offset `lo` of the `cnv_offset` split, `cnvOffsetSplit_total`) of the exact constant convolutions `cnv_by_const_apply(hi, a_i, b)`; its phase
 relates to the phase of those accumulators as the kernel relates the columns (`B` carries the factor `2^{lo}`). -/
